@@ -1,6 +1,7 @@
 import Cppcms.Common
 import Cppcms.C07.Proto
 import Cppcms.C10.Model
+import Cppcms.C10.Sock
 import Cppcms.C10.Spec
 /-!
 `c10_model`: line-protocol driver of the C10 model and judge.
@@ -15,6 +16,8 @@ model lines (answers in the harness's format):
   req fetch <key> <0|1> <gen|-> | req store <key> <val> <trigs> <deadline> | req rise <t> | req clear | req stats
                                               → the request frame `tcp_cache` puts on the socket
   dec <0|1 tinu> <reply frame bytes>          → what `tcp_cache::fetch` makes of a reply
+  rawseg <srv> <now> <n> <frame bytes> | cws <n> <cw arguments…>   the same with the request / the reply cut into
+                                              pieces of n bytes (`recvFrame` over `chunksOf n`)
   layout | hash <n> <key>
   <tail> = `<keys> <trigs>` of every server, then of every L1 (`n` = none), e.g. `2 5;0 0 | 1 2;n`
 judge lines: `J <impl answer> ; <case line>` evaluate `Spec.answerOk` over the ideal shared cache
@@ -127,9 +130,37 @@ def fetchBranch (cl : Cluster) : C10.Op → String
   | .clear .. => "clear"
   | _ => "other"
 
+/-- `cws <n> …`: as `cw`, the scripted peer sends the reply in pieces of `n` bytes: the reply the client works on is
+what `recvFrame` assembles from those pieces -/
+def cwsLine (n : Nat) (w : List String) : String :=
+  match w.getLast? with
+  | some rep =>
+    match parseHex rep with
+    | some rb =>
+      if !frameOk rb then "bad-op" else
+      match recvFrame (chunksOf n rb) with
+      | some (h, data, _) => cwLine (w.dropLast ++ [toHex (frameBytes h data)])
+      | none => "recv-failed"
+    | none => "bad-op"
+  | none => "bad-op"
+
 def modelLine (st : DState) (w : List String) : DState × String :=
   match w with
   | "cw" :: rest => (st, cwLine rest)
+  | "cws" :: n :: rest => (st, match n.toNat? with | some n => cwsLine n rest | none => "bad-op")
+  | ["rawseg", i, now, n, fr] =>
+    match i.toNat?, now.toInt?, n.toNat?, parseHex fr with
+    | some i, some now, some n, some fr =>
+      match st.cl.servers[i]? with
+      | some s =>
+        if !frameOk fr then (st, "bad-op") else
+        match recvFrame (chunksOf n fr) with
+        | some (h, data, _) =>
+          let (s', rh, rdata) := srvHandle s now h data
+          ({ st with cl := st.cl.setServer i s' }, toHex (frameBytes rh rdata))
+        | none => (st, "recv-failed")
+      | none => (st, "bad-op")
+    | _, _, _, _ => (st, "bad-op")
   | ["cfg", sl, l1] =>
     match parseLimits sl, parseL1s l1 with
     | some sl, some l1 =>
